@@ -18,6 +18,8 @@ HLoc = sf.HLoc
 
 def _proj(x, depth=0):
     '''a JSON-able observable of whatever a call hands back (class names of containers included: grow-only-ness is observable)'''
+    if isinstance(x, sf.Bus):
+        return {'bus': [_proj(l, depth + 1) for l in x.index], 'frames': [_proj(f, depth + 1) for f in x.values], 'name': str(x.name)}
     if isinstance(x, sf.Frame):
         return {'frame': x.__class__.__name__, 'index': _proj(x.index, depth + 1), 'columns': _proj(x.columns, depth + 1),
                 'cols': [[P.enc(v) for v in a] for a in P.raw_columns(x)], 'shape': list(x.shape), 'name': P.enc(x.name) if not isinstance(x.name, tuple) else str(x.name)}
@@ -296,6 +298,74 @@ def _auto_methods(obj):
     return {'auto:' + a: mk(a) for a in dir(obj) if not a.startswith('_') and a not in AUTO_SKIP}
 
 
+# ---- a Bus over a store, loaded piecemeal under max_persist, against a Bus holding the same Frames in memory ------------------------
+# (what is loaded is observable by design through status / dtypes / shapes / mloc / nbytes / display; relabelling or moving the Frames of a Bus that is
+#  still backed by a store - relabel, rename, roll, shift - is outside the property: deferred Frames are later fetched under the NEW labels)
+BUS_LISTED_OUT = {'dtypes', 'shapes', 'roll', 'rename', 'relabel', 'display', 'shift'}
+BUS_SKIP = {'status', 'mloc', 'nbytes', 'max_persist', 'store', 'STATIC', 'dtypes', 'shapes', 'display', 'display_tall', 'display_wide', 'relabel', 'rename', 'roll', 'shift', 'name', 'to_zip_pickle', 'to_zip_csv', 'to_zip_tsv', 'to_zip_parquet', 'to_zip_npz', 'to_sqlite', 'to_hdf5', 'to_xlsx',
+            'unpersist', 'from_items', 'from_frames', 'from_dict', 'from_series', 'from_concat', 'from_zip_pickle', 'from_zip_csv', 'from_zip_tsv', 'from_zip_parquet', 'from_zip_npz',
+            'from_sqlite', 'from_hdf5', 'from_xlsx'}
+
+
+def _bus_methods(labels):
+    last, first = labels[-1], labels[0]
+    return {
+        'keys': lambda b: list(b.keys()), 'values': lambda b: list(b.values), 'items': lambda b: list(b.items()), 'len': len, 'iter': list, 'reversed': lambda b: list(reversed(b)),
+        'getitem_last': lambda b: b[last], 'getitem_list_rev': lambda b: b[labels[::-1]], 'loc_slice': lambda b: b.loc[first:last], 'iloc_last': lambda b: b.iloc[-1],
+        'iloc_rev': lambda b: b.iloc[::-1], 'iloc_list': lambda b: b.iloc[[len(labels) - 1, 0]], 'mask': lambda b: b[np.array([i % 2 == 0 for i in range(len(labels))])],
+        'contains': lambda b: [l in b for l in labels + ['zz']], 'get_absent': lambda b: b.get('zz', None), 'get_last': lambda b: b.get(last), 'shapes': lambda b: b.shapes,
+        'dtypes': lambda b: b.dtypes, 'index': lambda b: b.index, 'head': lambda b: b.head(1), 'tail': lambda b: b.tail(2), 'equals_twin': lambda b: b.equals(sf.Bus.from_frames(list(b.values))),
+        'sort_index_desc': lambda b: b.sort_index(ascending=False), 'roll': lambda b: b.roll(1, include_index=True), 'rename': lambda b: b.rename('r'), 'drop_first': lambda b: b.drop.iloc[0],
+        'drop_last_label': lambda b: b.drop[last], 'reindex_rev': lambda b: b.reindex(labels[::-1]), 'relabel': lambda b: b.relabel(lambda l: l + '_x'), 'to_series': lambda b: b.to_series(),
+        'iter_element': lambda b: list(b.iter_element()), 'iter_element_items': lambda b: list(b.iter_element_items()), 'size': lambda b: b.size, 'shape': lambda b: b.shape,
+        'apply_shape': lambda b: b.iter_element().apply(lambda f: f.shape), 'display': lambda b: len(str(b).split('\n')), 'shift': lambda b: len(b.shift(1, fill_value=b[first])),
+    }
+
+
+def bus_pair_factory(workdir):
+    counter = [0]
+
+    def bus_pair(rng):
+        import os
+        n = rng.randint(2, 5)
+        labels = ['f%d' % i for i in rng.sample(range(9), n)]
+        frames = []
+        for l in labels:
+            nr, nc = rng.randint(1, 3), rng.randint(1, 3)
+            frames.append(sf.Frame(np.array([[rng.randint(0, 9) for _ in range(nc)] for _ in range(nr)], dtype=np.int64), index=tuple('r%d' % i for i in range(nr)),
+                                   columns=tuple('c%d' % j for j in range(nc)), name=l))
+        counter[0] += 1
+        fp = os.path.join(workdir, 'twin%d.zip' % counter[0])
+        sf.Bus.from_frames(frames).to_zip_pickle(fp)
+        mp = rng.choice([None, 1, 1, 2, 3, n])
+        lazy = sf.Bus.from_zip_pickle(fp, max_persist=mp)
+        hist = ['max_persist=%s' % mp]
+        for _ in range(rng.randint(0, 6)):
+            q = rng.random()
+            if q < 0.4:
+                lazy[rng.choice(labels)]
+                hist.append('get')
+            elif q < 0.6:
+                lazy.iloc[rng.randrange(n)]
+                hist.append('iloc')
+            elif q < 0.8:
+                lazy[rng.sample(labels, rng.randint(1, n))].values
+                hist.append('list')
+            else:
+                lazy.status
+                hist.append('status')
+        memory = sf.Bus.from_frames(frames)
+
+        def cleanup():
+            try:
+                os.remove(fp)
+            except OSError:
+                pass
+        info = {'kind': 'Bus:zip_pickle', 'labels': [P.enc(l) for l in labels], 'history': hist, '_cleanup': cleanup}
+        return lazy, memory, {k: v for k, v in _bus_methods(labels).items() if k not in BUS_LISTED_OUT}, info
+    return bus_pair
+
+
 def events(rng, n, kinds):
     '''n twin events over the given pair builders; each: one method, called on the grown container first'''
     out = []
@@ -308,9 +378,14 @@ def events(rng, n, kinds):
             continue
         if rng.random() < 0.35:
             methods = _auto_methods(fresh)
+            if isinstance(fresh, sf.Bus):
+                methods = {k: v for k, v in methods.items() if k.split(':')[1] not in BUS_SKIP}
         name = rng.choice(sorted(methods))
         fn = methods[name]
         a = _call(fn, stale)
         b = _call(fn, fresh)
+        cleanup = info.pop('_cleanup', None)
+        if cleanup:
+            cleanup()
         out.append({'kind': 'twin', 'what': name, 'info': info, 'stale': json.dumps(a, sort_keys=True, default=str), 'fresh': json.dumps(b, sort_keys=True, default=str)})
     return out
